@@ -245,6 +245,8 @@ def failure_props(h, failed_checks):
         props.add(m.group(1).upper())
     if re.search(r'(?:^|::)l4_', h):
         props.update(['C01', 'C02', 'C03', 'C12'])
+    if re.search(r'(?:^|::)l7_', h):
+        props.update(['C01', 'C02'])
     return sorted(props)
 
 
